@@ -136,14 +136,21 @@ def _impl_for(ctx, lit):
                 for g in ctx.prog.resolve_call(c, D):
                     if isinstance(g, Func):
                         return g
+    if table.get(lit):
+        return D          # implemented inline in the dispatch branch
     raise AnalysisError('implementation of mode %s not found' % lit)
 
 
 def r13_2(ctx, rc):
     M = _impl_for(ctx, 'METADATA')
     prog = ctx.prog
+    D, table, fall = _dispatch(ctx)
+    # the statements that implement the mode: the implementing function, or
+    # - when it was inlined - the dispatch branch
+    scope = M.node if M is not D else ast.Module(
+        body=[st for st in table.get('METADATA', [])], type_ignores=[])
     stat_vars = set()
-    for n in ast.walk(M.node):
+    for n in ast.walk(scope):
         if isinstance(n, ast.Assign) and isinstance(n.value, ast.Call) and \
                 'os.stat' in prog.resolve_call(n.value, M):
             for t in n.targets:
@@ -153,7 +160,7 @@ def r13_2(ctx, rc):
         raise AnalysisError('METADATA does not call os.stat')
     observed = set()
     other = []
-    for r in ast.walk(M.node):
+    for r in ast.walk(scope):
         if isinstance(r, ast.Return) and r.value is not None:
             for x in ast.walk(r.value):
                 if isinstance(x, ast.Attribute) and isinstance(
@@ -174,7 +181,7 @@ def r13_2(ctx, rc):
         rc.ok({'observes': sorted(observed)}, key=key)
     key = 'METADATA of a directory raises IsADirectoryError'
     ok = any(isinstance(n, ast.Raise) and 'IsADirectoryError' in
-             ast.unparse(n) for n in ast.walk(M.node))
+             ast.unparse(n) for n in ast.walk(scope))
     if ok:
         rc.ok({'directory': 'IsADirectoryError'}, key=key)
     else:
